@@ -1,4 +1,4 @@
 From Coq Require Import List Arith Extraction ExtrOcamlBasic.
 From DDP Require Import Lang.MiniSyntax Lang.MiniTyping Lang.MiniCheck Lang.MiniMutate Lang.MiniShadowFree Lang.MiniGuard.
 Extraction Language OCaml.
-Extraction "c04_model.ml" wfb check check_patched check_with mutants all_faults shadow_free quirk_free.
+Extraction "c04_model.ml" wfb check check_pinned check_with mutants all_faults shadow_free quirk_free.
